@@ -233,9 +233,9 @@ package scheduler
 //@   requires sentinel-initialised: errJobInvalid != nil
 //
 //   main loop
-//@   loop 1 invariant [C19,C03,C06] A1-pending-is-ready-waiting-ongoing: pending == listlen(ready) + waiting + ongoing
+//@   loop 1 invariant [C19,C03,C06,C05] A1-pending-is-ready-waiting-ongoing: pending == listlen(ready) + waiting + ongoing
 //@   loop 1 invariant [C19,C03,C06] A2-ongoing-bounded: 0 <= ongoing && ongoing <= s.concurrency
-//@   loop 1 invariant [C19] A3-counters-match-channel-events: ongoing == $OUT && pending == nEnq - nRes && nRes <= nDisp && 0 <= nRes && 0 <= nEnq
+//@   loop 1 invariant [C19,C05] A3-counters-match-channel-events: ongoing == $OUT && pending == nEnq - nRes && nRes <= nDisp && 0 <= nRes && 0 <= nEnq
 //@   loop 1 invariant [C19] A4-waiting-bounded: waiting <= nEnqDeps && nEnqDeps <= nEnq && listlen(ready) >= 0
 //@   loop 1 invariant [C05] K1-enqueue-arm: (enqueuec == nil) == closedSeen && implies(enqueuec != nil, enqueuec == s.enqueuec)
 //@   loop 1 invariant [C07] E1-failfast-no-error-yet: implies(!s.continueOnError, s.err == nil)
@@ -243,17 +243,17 @@ package scheduler
 //@   loop 1 invariant I1-consumers-non-nil: $I1
 //@   loop 1 invariant I2-deps-non-nil: $I2
 //@   loop 1 invariant I3-consumers-enqueued: $I3
-//@   loop 1 invariant [C01] D1-remaining-counts-open-subscriptions: $D1
-//@   loop 1 invariant [C01] D2-subscriptions-are-to-unfinished-dependencies: $D2
-//@   loop 1 invariant [C01] D3-every-unfinished-dependency-is-subscribed: $D3
-//@   loop 1 invariant [C01] D4-consumer-entries-are-open-subscriptions: $D4
-//@   loop 1 invariant [C01] D5-entries-of-one-consumer-have-distinct-slots: $D5
-//@   loop 1 invariant [C01] D6-every-subscription-has-its-entry: $D6
+//@   loop 1 invariant [C01,C07] D1-remaining-counts-open-subscriptions: $D1
+//@   loop 1 invariant [C01,C07] D2-subscriptions-are-to-unfinished-dependencies: $D2
+//@   loop 1 invariant [C01,C07] D3-every-unfinished-dependency-is-subscribed: $D3
+//@   loop 1 invariant [C01,C07] D4-consumer-entries-are-open-subscriptions: $D4
+//@   loop 1 invariant [C01,C07] D5-entries-of-one-consumer-have-distinct-slots: $D5
+//@   loop 1 invariant [C01,C07] D6-every-subscription-has-its-entry: $D6
 //@   loop 1 invariant [C19] W-waiting-counts-jobs-with-open-subscriptions: $WDEF && waiting == card(W)
 //@   loop 1 invariant [C01,C12] dispatched-and-finished-jobs: $DISP
 //@   loop 1 invariant [C08,C01] F1-failed-dependency-invalidates: $F1
 //@   loop 1 invariant [C08] F2-invalid-has-a-failed-dependency: $F2
-//@   loop 1 invariant [C08] F3-finished-invalid-job-carries-an-error: $F3
+//@   loop 1 invariant [C08,C01] F3-finished-invalid-job-carries-an-error: $F3
 //@   loop 1 invariant [C07,C01] E2-failfast-finished-jobs-are-error-free: $E2
 //@   loop 1 invariant [C08] F4-unfinished-jobs-have-no-error: $F4
 //@   loop 1 invariant [C07] N1-event-counters-count-distinct-jobs: $N1
@@ -304,11 +304,11 @@ package scheduler
 //   enqueue arm: loop over the new job's dependencies
 //@   loop 2 invariant remaining-counts-subscriptions: 0 <= job.remaining && job.remaining <= idx2 && idx2 <= len(job.deps)
 //@   loop 2 invariant $I1 && $I2 && $I3
-//@   loop 2 invariant [C01] D-structure-while-subscribing: $D1 && $D2 && $D3E && $D4 && $D5 && $D6 && $P1 && $P2
+//@   loop 2 invariant [C01,C07] D-structure-while-subscribing: $D1 && $D2 && $D3E && $D4 && $D5 && $D6 && $P1 && $P2
 //@   loop 2 invariant [C19] W-while-subscribing: $WDEF && waiting == card(W) - ite(in(job, W), 1, 0)
 //@   loop 2 invariant [C01,C12] dispatched-and-finished-jobs-while-subscribing: $DISP && !in(job, disp) && in(job, enq) && !job.done
 //@   loop 2 invariant [C01] B2-while-subscribing: $B2 && forall(i, int, implies(listlo(ready) <= i && i < listhi(ready), dataof(listat(ready, i)) != job))
-//@   loop 2 invariant [C08] F-while-subscribing: $F1E && $F2 && $F3 && $E2 && $F4
+//@   loop 2 invariant [C08,C01] F-while-subscribing: $F1E && $F2 && $F3 && $E2 && $F4
 //@   at store invalid 1 assert [C12] invalid-written-before-the-job-can-be-dispatched: !in(target, disp) && target == job
 //@   at store invalid 1 ghost wit[target] = idx2
 //@   at store consumers 1 ghost slotOf[target][len(target.consumers) - 1] = idx2
@@ -320,17 +320,17 @@ package scheduler
 //@   loop 4 invariant [C19] A1-in-notify-loop: pending == listlen(ready) + waiting + ongoing
 //@   loop 4 invariant [C19] A4-in-notify-loop: waiting <= nEnqDeps && listlen(ready) >= 0
 //@   loop 4 invariant L1-in-notify-loop: $L1
-//@   loop 4 invariant [C01] D-structure-while-notifying: $D1 && $D2N && $D3 && $D4 && $D4N && $D5 && $D6
+//@   loop 4 invariant [C01,C07] D-structure-while-notifying: $D1 && $D2N && $D3 && $D4 && $D4N && $D5 && $D6
 //@   loop 4 invariant [C19] W-while-notifying: $WDEF && waiting == card(W)
 //@   loop 4 invariant [C01,C12] dispatched-and-finished-jobs-while-notifying: $DISP && job.done && in(job, enq)
 //@   loop 4 invariant [C01] B2-while-notifying: $B2
-//@   loop 4 invariant [C08] F-while-notifying: $F1 && $F2 && $F3 && $F4
+//@   loop 4 invariant [C08,C01] F-while-notifying: $F1 && $F2 && $F3 && $F4
 //@   at store remaining 2 assert [C01,C19] notified-consumer-had-an-open-subscription: val >= 0
 //@   at store remaining 2 ghost S[target] = remove(S[target], slotOf[job][idx4])
 //@   at store remaining 2 ghost W = ite(val == 0, remove(W, target), W)
 //
 //   done arm, ContinueOnError: loop 3 marks the consumers of the failed job invalid
-//@   loop 3 invariant [C08] F-while-invalidating: $F1M && $F2 && $F3 && $F4 && job.done && job.err != nil && in(job, enq)
+//@   loop 3 invariant [C08,C01] F-while-invalidating: $F1M && $F2 && $F3 && $F4 && job.done && job.err != nil && in(job, enq)
 //@   at store invalid 2 assert [C12] invalid-written-only-while-the-consumer-waits: !in(target, disp) && in(target, enq)
 //@   at store invalid 2 ghost wit[target] = slotOf[job][idx3]
 //@   at call Append 1 pre assert [C08] accumulates-exactly-this-results-non-sentinel-error: arg0 == s.err && arg1 == res.Err && arg1 != nil && !errorsIs(arg1, errJobInvalid)
